@@ -217,7 +217,10 @@ def check_readonly(spec):
 
 
 # ------------------------------------------------------------------------------------------------ (b) histories
-HV = {"1": ["int", 1], "2": ["list", [["int", 1], ["tuple", [["float", 2.5], ["str", "a"]]]]], "3": ["str", "s"], "4": ["arr", "float64", [2, 3]]}
+HV = {"1": ["int", 1], "2": ["list", [["int", 1], ["tuple", [["float", 2.5], ["str", "a"]]]]], "3": ["str", "s"], "4": ["arr", "float64", [2, 3]],
+      "L": ["list", [["int", 1], ["int", 2], ["int", 3]]]}
+# alias family: ONE qp.data.attribute(...) object (created once per history) assigned under several names ("seta"), in-place list appends ("app")
+EVENTS_ALIAS = ["seta:x", "seta:y", "set:x:L", "app:x", "app:y", "get", "del:x", "write:f1:w", "open:f1:copy", "open:f1:a", "copy"]
 EVENTS_QUICK = ["set:x:1", "set:x:2", "set:y:3", "del:x", "get", "write:f1:w", "write:f1:a", "write:f1:aow", "open:f1:r", "open:f1:a",
                 "open:f1:copy", "read:f1", "read:f1:ow", "copy", "nest:1"]
 EVENTS_MORE = ["new", "write:f2:w", "read:f2:ow", "set:y:4"]
@@ -230,6 +233,9 @@ class Model:
         self.files = {"f1": None, "f2": None}
         self.cur = {}
         self.backing = None  # (file, mode) for mode in r / a
+        # the shared attribute object is a HANDLE: after `ds.k = obj` it is bound to ds.k, so in-place changes of ds.k are changes of the
+        # object; it dies with the storage it is bound to (attribute replaced / deleted, dataset closed)
+        self.shared_val, self.shared_loc, self.shared_dead = HV["L"], None, False
         if world == "seeded":  # create(attrs): A = Dataset(x=1); f1 was written earlier by another dataset {x: list, y: "s"}
             self.cur = {"x": HV["1"]}
             self.files["f1"] = {"x": HV["2"], "y": HV["3"]}
@@ -238,8 +244,12 @@ class Model:
         p = ev.split(":")
         ro = self.backing is not None and self.backing[1] == "r"
         bf = self.backing[0] if self.backing else None
+        if p[0] == "seta":
+            return not ro and not self.shared_dead
         if p[0] in ("set", "nest"):
             return not ro
+        if p[0] == "app":
+            return not ro and p[1] in self.cur and self.cur[p[1]][0] == "list"
         if p[0] == "del":
             return not ro and p[1] in self.cur
         if p[0] in ("get", "new", "copy"):
@@ -254,8 +264,17 @@ class Model:
 
     def apply(self, ev):
         p = ev.split(":")
+        if self.shared_loc is not None and ((p[0] in ("set", "del") and p[1] == self.shared_loc) or p[0] in ("open", "copy", "new", "read")):
+            self.shared_dead = True
         if p[0] == "set":
             self.cur[p[1]] = HV[p[2]]
+        elif p[0] == "seta":
+            self.cur[p[1]] = self.shared_val  # assigning an attribute object stores its current VALUE under that name ...
+            self.shared_loc = p[1]            # ... and binds the object to that attribute
+        elif p[0] == "app":
+            self.cur[p[1]] = ["list", list(self.cur[p[1]][1]) + [["int", 4]]]  # only the named attribute changes
+            if self.shared_loc == p[1]:
+                self.shared_val = self.cur[p[1]]
         elif p[0] == "nest":
             self.cur["sub"] = ["dataset", [["q", HV[p[1]]]]]
         elif p[0] == "del":
@@ -325,6 +344,7 @@ def check_hist(spec):
     else:
         A = D()
     accessed, stale_src = set(), {}
+    shared = [None]
     last_mut = "create"
     through_hdf5 = False
 
@@ -363,6 +383,12 @@ def check_hist(spec):
                             return bad(f"set-existing-attribute:raises:{type(e).__name__}", f"{type(e).__name__}: {e}"[:200],
                                        "attribute replaced (AttributeTypeMapper.set_item: 'Creates or replaces attribute')", hist=hist, event=pos)
                         raise
+                elif p[0] == "seta":
+                    if shared[0] is None:
+                        shared[0] = qp.data.attribute(XD.build(HV["L"]))
+                    setattr(A, p[1], shared[0])
+                elif p[0] == "app":
+                    getattr(A, p[1]).append(4)
                 elif p[0] == "nest":
                     existing = "sub" in m.cur
                     try:
@@ -409,7 +435,7 @@ def check_hist(spec):
                 return bad(f"event-raises:{':'.join(p[:1] + p[2:])}:{type(e).__name__}", f"{type(e).__name__}: {e}"[:300], "event succeeds (enabled in the model)",
                            hist=hist, event=pos)
             m.apply(ev)
-            last_mut = ":".join(p[:1] + p[2:]) if p[0] not in ("set", "nest") else p[0]
+            last_mut = ":".join(p[:1] + p[2:]) if p[0] not in ("set", "nest", "seta", "app") else p[0]
             if before is None:
                 stale_src.clear()
             else:  # attributes that were read (cached) before and whose stored value has just been replaced or removed
@@ -498,6 +524,11 @@ def run(ctx):
                 ws += [w for w in enabled_words(events, 3, world) if tuple(w) not in have]
             n_hist, n_ev = n_hist + len(ws), n_ev + sum(len(w) for w in ws)
             ctx.enumerate([{"fam": "hist", "world": world, "hist": w} for w in ws], axis=f"histories:{world}")
+        wa = enabled_words(EVENTS_ALIAS, 4 if ctx.quick else 5, "empty")
+        wa = [w for w in wa if any(e.startswith("seta") for e in w) and any(e.startswith("app") for e in w)]
+        n_hist, n_ev = n_hist + len(wa), n_ev + sum(len(w) for w in wa)
+        ctx.enumerate([{"fam": "hist", "world": "empty", "hist": w} for w in wa], axis="histories:shared-attribute-object")
+        ctx.coverage["alias_family"] = {"events": EVENTS_ALIAS, "depth": 4 if ctx.quick else 5, "histories": len(wa)}
         ctx.coverage["alphabet"] = {"events": events, "history_values": HV, "initial_worlds": {"empty": "A = Dataset()", "seeded": "A = Dataset(x=1); file f1 = {x: [1, (2.5, 'a')], y: 's'}"}}
         ctx.coverage["bound"] = {"depth": depth, "depth_with_extra_events": 3, "files": 2}
     ctx.coverage.update({"states": max(1, n_hist), "transitions": max(1, n_ev), "traces_validated_against_impl": max(1, n_hist),
